@@ -1,10 +1,11 @@
 ---------------------------- MODULE MC_AsmSizing ----------------------------
 EXTENDS AsmSizing
-CONSTANTS MaxN, Fillers
+CONSTANTS MaxN, Fillers, Consts        \* Consts: the constants written with a label (label+c,PCR), 0 = plain label
+ConstsC == {0, 4, -4, 126, -126, 200, -200}       \* (a cfg file cannot hold negative numbers: Consts <- ConstsC)
 VARIABLES prog, st
 vars == <<prog, st>>
-Items(n) == {[k |-> "fix", sz |-> f, tgt |-> 0, base |-> 0, mx |-> f] : f \in Fillers} \cup {[k |-> "fix", sz |-> 3, tgt |-> 0, base |-> 0, mx |-> 2]}
-            \cup [k : {"pcr"}, sz : {0}, tgt : 1..n, base : {2, 3}, mx : {0}]
+Items(n) == {[k |-> "fix", sz |-> f, tgt |-> 0, base |-> 0, mx |-> f, c |-> 0] : f \in Fillers} \cup {[k |-> "fix", sz |-> 3, tgt |-> 0, base |-> 0, mx |-> 2, c |-> 0]}
+            \cup [k : {"pcr"}, sz : {0}, tgt : 1..n, base : {2, 3}, mx : {0}, c : Consts]
 Progs == UNION {{p \in [1..n -> Items(n)] : \E i \in 1..n : p[i].k = "pcr"} : n \in 1..MaxN}
 Init == prog \in Progs /\ st = Init0(prog)
 Next == st.phase # "done" /\ st' = Step(prog, st) /\ UNCHANGED prog
